@@ -800,7 +800,151 @@ class Run:
             "errors": [e[5] for e in vc.trace if e[1] == "procexit" and e[5]][:5],
             "unknown_ext": [e for e in vc.trace if e[1] == "unknown_ext"][:3],
         }
-        return {"model": None, "obs": obs}
+        hist = translate(self)
+        return {"model": None, "obs": obs, "hist": hist}
+
+
+SUBKINDS = ("submit", "trysubmit", "cancel")
+
+
+def translate(run):
+    """real event history -> ops for Jade.Sys.step (+ what was observed, for comparison)"""
+    vc, sc = run.vc, run.sc
+    tr = vc.trace
+    kinds = {p.pid: p.kind for p in vc.procs.values()}
+    evs, exp = [], []
+    WILD = "*"
+
+    def emit(op, expected=WILD, **kw):
+        d = {"op": op}
+        d.update(kw)
+        evs.append(d)
+        exp.append(expected)
+
+    def srow(r):
+        return [r[0], r[1], r[2] == "canceled"]
+
+    seen_sbatch = set()
+    n = len(tr)
+    for i, e in enumerate(tr):
+        k = e[1]
+        if k == "spawn":
+            _, _, pid, kind, host = e
+            if kind in SUBKINDS:
+                emit("spawnSub", None, p=pid, isCancel=(kind == "cancel"))
+                if kind == "submit":
+                    emit("promote", True, p=pid)     # Cluster.create: submitter from birth
+        elif k == "promote":
+            emit("promote", bool(e[3]), p=e[2])
+        elif k == "squeue":
+            pid = e[2]
+            if kinds.get(pid) in SUBKINDS and kinds.get(pid) != "cancel" and e[3] != "FAILED":
+                # only the poll of a submitter round (the first successful squeue of the process)
+                if not any(x[1] == "squeue" and x[2] == pid and x[3] != "FAILED" for x in tr[:i]):
+                    emit("poll", WILD, p=pid, listed=[int(x) for x in e[3] if str(x).isdigit()])
+        elif k == "move":
+            b = int(e[3].split("_")[-1].split(".")[0])
+            emit("collectFile", [srow(r) for r in e[4]], p=e[2], b=b)
+        elif k == "collect":
+            pid = e[2]
+            ks = []
+            for x in tr[i + 1:]:
+                if x[2] != pid:
+                    continue
+                if x[1] == "row" and x[3] == "processed_results.csv":
+                    ks.append(jid(x[4][0]))
+                elif x[1] in ("acq", "rel", "mut"):
+                    continue
+                else:
+                    break
+            emit("passEnd", WILD, p=pid, ks=ks)
+        elif k == "row":
+            _, _, pid, fname, (name, rc, status) = e
+            if fname == "processed_results.csv":
+                emit("cancelRow", None, p=pid, j=jid(name))
+            elif status == "canceled":
+                emit("nodeCancel", None, p=pid, j=jid(name))
+            else:
+                emit("nodeRow", int(rc), p=pid, j=jid(name))
+        elif k == "mut" and e[3] == "submitter.lock":
+            if e[4] == "touch":
+                emit("mark", None, p=e[2])
+            elif e[4] == "remove":
+                nxt = next((x for x in tr[i + 1:] if x[2] == e[2] and x[1] in ("summary", "demote", "procexit", "kill", "killin", "failwrite", "locktimeout")), None)
+                dec = WILD if nxt is None or nxt[1] in ("kill", "killin", "procexit", "failwrite", "locktimeout") else (nxt[1] == "summary")
+                emit("unmark", dec, p=e[2])
+        elif k == "sbatch":
+            _, _, pid, bidx, hid, jl, groups, acct = e
+            if (pid, bidx) in seen_sbatch:
+                continue
+            seen_sbatch.add((pid, bidx))
+            emit("sbatch", {"bid": bidx, "handed": [sorted(bl) for _, bl in jl]}, p=pid, jobs=[x for x, _ in jl], hid=hid)
+        elif k == "persist":
+            _, _, pid, sub, can, done, ids, bi = e
+            wrote = []
+            for x in tr[i + 1:]:
+                if x[2] != pid:
+                    continue
+                if x[1] == "mut":
+                    wrote.append(x[3])
+                elif x[1] in ("acq", "rel"):
+                    continue
+                else:
+                    break
+            args = {"pend": sorted(sub), "cancels": sorted(can), "newly": sorted(done), "ids": sorted(int(x) for x in ids), "bidx": bi}
+            if "job_status.json" in wrote:
+                emit("persist", args, p=pid)
+            else:
+                # the process died / failed between the files: only what was written counts
+                if "cluster_config.json" in wrote:
+                    emit("persistCfg", "*", p=pid)
+        elif k == "summary":
+            _, _, pid, missing, rows = e
+            emit("summary", WILD, p=pid, _missing=list(missing), _rows=sorted(srow(r) for r in rows))
+        elif k == "markcomplete":
+            emit("flag", None, p=e[2])
+        elif k == "markcanceled":
+            emit("markCanceled", None, p=e[2])
+        elif k == "scancel":
+            emit("scancel", None, p=e[2], h=e[3])
+        elif k == "demote":
+            emit("demote", None, p=e[2])
+        elif k == "procexit":
+            if e[3] in SUBKINDS or e[3] == "node":
+                emit("exit", WILD, p=e[2])
+        elif k == "startbatch":
+            _, _, hid, bidx, npid = e
+            b = vc.slurm[hid]
+            g = sc["groups"][sc["jobs"][b["jobs"][0][0]]["group"]] if b["jobs"] else {"procs": 1}
+            w = min(len(b["jobs"]), g["procs"] if g.get("procs") is not None else sc.get("cpus", 4))
+            emit("startBatch", {"bid": bidx, "jobs": [[x, sorted(bl)] for x, bl in b["jobs"]]}, p=npid, h=hid, workers=w)
+        elif k == "start":
+            emit("nodeStart", None, p=e[2], j=jid(e[4]))
+        elif k in ("kill", "killin"):
+            emit("kill", WILD, p=e[2])
+        elif k == "nodelost" and e[3] is None:
+            emit("batchLost", WILD, h=e[2])
+    # final observations
+    st = vc.read_status()
+    final = {"marker": vc.marker(), "starts": [jid(e[4]) for e in tr if e[1] == "start"],
+             "completions": sum(1 for e in tr if e[1] == "markcomplete")}
+    rows = []
+    try:
+        from vcluster import REAL_OPEN
+        lines = REAL_OPEN(os.path.join(vc.out, "processed_results.csv")).read().split("\n")[1:]
+        rows = [[jid(l.split(",")[0]), int(l.split(",")[1]), l.split(",")[2] == "canceled"] for l in lines if l.strip()]
+        final["processed"] = rows
+    except Exception:
+        final["processed"] = None
+    if st is not None:
+        final["disk"] = {"jobs": [[s_, bl] for _, s_, bl in st["jobs"]], "ids": sorted(int(x) for x in st["ids"]), "bidx": st["batch_index"],
+                         "submitted": st["submitted"], "completed": st["completed"], "complete": st["complete"], "canceled": st["canceled"]}
+        final["submitter_set"] = st["submitter"] is not None
+    else:
+        final["disk"] = None
+    scn = {"n": len(sc["jobs"]), "blockers": [j["blockers"] for j in sc["jobs"]], "flags": [j["cancel"] for j in sc["jobs"]],
+           "rc": [j["rc"] for j in sc["jobs"]], "maxNodes": sc["maxNodes"] if sc["maxNodes"] is not None else sys.maxsize}
+    return {"scn": scn, "events": evs, "expected": exp, "final": final}
 
 
 def _run_case(case):
@@ -841,6 +985,59 @@ class SystemSuite(Suite):
 
     def view(self, result):
         return result.get("model")
+
+    def model_from_result(self, case, result):
+        h = result.get("hist")
+        if not h or case["sc"].get("local") or any(g.get("dryRun") for g in case["sc"]["groups"]):
+            return {"op": "system.trace", "scn": {"n": 0, "blockers": [], "flags": [], "rc": [], "maxNodes": 1}, "events": []}
+        return {"op": "system.trace", "scn": h["scn"], "events": h["events"]}
+
+    def agree(self, model, result):
+        return not self.diff(model, result)
+
+    def diff(self, model, result):
+        """differences between the model's replay and the observed history (empty = agreement)"""
+        h = result.get("hist")
+        if not h or not model.get("outs") and not h["events"]:
+            return []
+        if len(h["events"]) == 0:
+            return []
+        if "driver_error" in model:
+            return [f"driver: {model['driver_error']}"]
+        d = []
+        if model["rejected"] is not None:
+            i = model["rejected"]
+            d.append(f"event {i} not accepted by the model: {h['events'][i]} (process at {model.get('procAt')}); previous: {h['events'][max(0, i - 4):i]}")
+            return d
+        for i, (o, e, ev) in enumerate(zip(model["outs"], h["expected"], h["events"])):
+            if ev["op"] == "summary":
+                if sorted(o["rows"]) != ev["_rows"] or o["missing"] != ev["_missing"]:
+                    d.append(f"event {i} summary: model {o} observed missing={ev['_missing']} rows={ev['_rows']}")
+                continue
+            if e == "*" or o == "stutter":
+                continue
+            if o != e:
+                d.append(f"event {i} {ev}: model computed {o}, observed {e}")
+        f = h["final"]
+        faulty = any(ev["op"] in ("kill", "persistCfg") for ev in h["events"]) or result["obs"].get("fault")
+        if faulty and f["disk"] is not None:
+            # counters are written from memory by a later demote after a failed write: not modelled
+            for k in ("submitted", "completed"):
+                f["disk"].pop(k, None)
+                model["disk"].pop(k, None)
+        if f["disk"] is not None and model["disk"] != f["disk"]:
+            d.append(f"final status: model {model['disk']} observed {f['disk']}")
+        if f["disk"] is not None and (model["submitter"] is not None) != f["submitter_set"]:
+            d.append(f"final submitter field: model {model['submitter']} observed set={f['submitter_set']}")
+        if model["marker"] != f["marker"]:
+            d.append(f"final marker: model {model['marker']} observed {f['marker']}")
+        if f["processed"] is not None and model["processed"] != f["processed"]:
+            d.append(f"consolidated rows: model {model['processed']} observed {f['processed']}")
+        if model["starts"] != f["starts"]:
+            d.append(f"starts: model {model['starts']} observed {f['starts']}")
+        if model["completions"] != f["completions"]:
+            d.append("completions differ")
+        return d
 
     def oracle(self, case, result):
         if "harness_exception" in result:
